@@ -9,6 +9,7 @@ use asynchronous_codec::FramedWrite;
 use blockstore::Blockstore;
 use cid::CidGeneric;
 use fnv::{FnvHashMap, FnvHashSet};
+#[cfg(not(beetswap_verif))]
 use futures_timer::Delay;
 use futures_util::future::{AbortHandle, Abortable, FutureExt};
 use futures_util::sink::SinkExt;
@@ -20,7 +21,11 @@ use libp2p_swarm::{
 };
 use smallvec::SmallVec;
 use tracing::debug;
+#[cfg(not(beetswap_verif))]
 use web_time::Instant;
+
+#[cfg(beetswap_verif)]
+use crate::verif::clock::{Delay, Instant};
 
 use crate::incoming_stream::ClientMessage;
 use crate::message::Codec;
@@ -685,6 +690,46 @@ impl<const S: usize> ClientConnectionHandler<S> {
 impl<const S: usize> fmt::Debug for ClientConnectionHandler<S> {
     fn fmt(&self, f: &mut fmt::Formatter<'_>) -> fmt::Result {
         f.write_str("ClientConnectionHandler")
+    }
+}
+
+#[cfg(beetswap_verif)]
+impl<const S: usize, B> ClientBehaviour<S, B>
+where
+    B: Blockstore + 'static,
+{
+    pub(crate) fn verif_snapshot(&self) -> crate::verif::ClientSnapshot<S> {
+        let (wantlist, revision) = self.wantlist.verif_dump();
+        crate::verif::ClientSnapshot {
+            wantlist,
+            revision,
+            peers: self
+                .peers
+                .iter()
+                .map(|(peer, st)| {
+                    let (req_state, force_update, synced_revision) = st.wantlist.verif_dump();
+                    crate::verif::PeerSnapshot {
+                        peer: *peer,
+                        connections: st.established_connections.iter().copied().collect(),
+                        sending_state: st.sending_state,
+                        send_full: st.send_full,
+                        req_state,
+                        force_update,
+                        synced_revision,
+                    }
+                })
+                .collect(),
+            cid_to_queries: self
+                .cid_to_queries
+                .iter()
+                .map(|(c, qs)| (*c, qs.iter().map(|q| q.0).collect()))
+                .collect(),
+            query_abort_handle: self.query_abort_handle.keys().map(|q| q.0).collect(),
+            tasks: self.tasks.len(),
+            queue: self.queue.len(),
+            new_blocks: self.new_blocks.len(),
+            next_query_id: self.next_query_id,
+        }
     }
 }
 
